@@ -322,6 +322,50 @@ inductive PtChoice
   | simple | fileNamed | fileTemp
   deriving DecidableEq, Repr
 
+/-- the two text attributes of a process tensor that have setters -/
+inductive MetaField
+  | name | description
+  deriving DecidableEq, Repr
+
+/-- a property setter of `FileProcessTensor` (`name.setter`, `description.setter`) -/
+structure SetterSpec where
+  /-- the private attribute the setter assigns (`self._name` / `self._description`) -/
+  field : MetaField
+  /-- the text stored when `None` is assigned -/
+  noneDefault : String
+  /-- (`self._write`, `self._f is not None`) ↦ is the file attribute written? -/
+  guard : Bool → Bool → Bool
+  /-- the key of `self._f.attrs[...]` that is written -/
+  attr : AttrName
+  /-- the private attribute whose value is written there -/
+  src : MetaField
+
+/-- `unitary` and `unitary.conjugate().T` -/
+inductive UExpr
+  | u | udag
+  deriving DecidableEq, Repr
+
+/-- how `PtTempo._init_simple_process_tensor` / `_init_file_process_tensor` build what they hand
+    to the process-tensor constructor -/
+structure PtInitSpec where
+  /-- the condition under which transforms are built (source text) -/
+  cond : String
+  /-- `transform_in = left_right_super(a, b).T` -/
+  tin : UExpr × UExpr
+  /-- `transform_out = left_right_super(a, b).T` -/
+  tout : UExpr × UExpr
+  /-- both are `None` otherwise -/
+  elseNone : Bool
+  /-- keyword arguments of the constructor call other than `mode`/`filename`, sorted by name:
+      (keyword, source text of the value) -/
+  kwargs : List (String × String)
+  deriving DecidableEq, Repr
+
+/-- a call found in an `except`/`finally` block on the path an exception takes out of a writer -/
+inductive UnwindStep
+  | close | remove
+  deriving DecidableEq, Repr
+
 structure Flags where
   /-- `_read_file`: the test on `attrs["writing"]` that triggers the corruption warning -/
   readWarn : PyVal → Bool
@@ -353,6 +397,17 @@ structure Flags where
   ptTempoChoice : Bool → Bool → PtChoice
   /-- PtTempo `_init_file_process_tensor(overwrite)` ↦ mode -/
   ptTempoMode : Bool → String
+  /-- `FileProcessTensor.name.setter` / `description.setter` -/
+  nameSetter : SetterSpec
+  descrSetter : SetterSpec
+  /-- the metadata PtTempo hands to the in-memory / file-backed process tensor -/
+  ptTempoSimpleInit : PtInitSpec
+  ptTempoFileInit : PtInitSpec
+  /-- `close()`/`remove()` calls in `except`/`finally` blocks of `export()` after the file was
+      created, and of the PT-TEMPO writing path (`pt_tempo_compute`, `PtTempo.compute`,
+      `get_process_tensor`, `update_process_tensor`, `compute_caps`, `set_*_tensor`) -/
+  exportUnwind : List UnwindStep
+  ptTempoUnwind : List UnwindStep
 
 /-! ## 5. Process tensors in memory -/
 
@@ -751,5 +806,80 @@ def readerCloseOk (F : Flags) (c : H5) : Bool :=
   match c.writing with
   | some b => !(F.closeReset false (h5AttrRead b))
   | none => false
+
+/-! ## 9. Metadata assigned after creation -/
+
+def Meta.get (m : Meta) : MetaField → String
+  | .name => m.name
+  | .description => m.description
+
+def Meta.set (m : Meta) (f : MetaField) (s : String) : Meta :=
+  match f with
+  | .name => { m with name := s }
+  | .description => { m with description := s }
+
+/-- calls on a file-backed process tensor open for writing: tensor writes and assignments to
+    `.name` / `.description` (the argument may be `None`) -/
+inductive MCmd
+  | tensor (c : Cmd)
+  | setName (s : Option String)
+  | setDescription (s : Option String)
+  deriving DecidableEq, Repr
+
+/-- a property setter, statement by statement: assign the private attribute, then (guard)
+    write the file attribute -/
+def applySetter (sp : SetterSpec) (write : Bool) (st : W × Meta) (v : Option String) : W × Meta :=
+  let m' := st.2.set sp.field (v.getD sp.noneDefault)
+  let w' := if sp.guard write true then st.1.emit (.setAttrStr sp.attr (m'.get sp.src)) else st.1
+  (w', m')
+
+/-- state = (file handle, the live object's attributes) -/
+def runM (F : Flags) (st : W × Meta) : MCmd → W × Meta
+  | .tensor c => (runCmd st.1 c, st.2)
+  | .setName s => applySetter F.nameSetter true st s
+  | .setDescription s => applySetter F.descrSetter true st s
+
+/-- a file-backed writer whose name/description are (re)assigned after creation -/
+def writerM (F : Flags) (env : Env) (d : Disk) (mode : String) (m : Meta) (cmds : List MCmd)
+    (close : Bool) : Except OpenErr (W × Meta) :=
+  match createFile F env d mode m with
+  | .ok w =>
+    let st := cmds.foldl (runM F) (w, m)
+    .ok (if close then (closeW F true st.1, st.2) else st)
+  | .error e => .error e
+
+/-- the same assignments on an in-memory object (`BaseAPIClass` setters) -/
+def metaCmd (F : Flags) (m : Meta) : MCmd → Meta
+  | .tensor _ => m
+  | .setName s => m.set .name (s.getD F.nameSetter.noneDefault)
+  | .setDescription s => m.set .description (s.getD F.descrSetter.noneDefault)
+
+/-! ## 10. Interruption by an exception -/
+
+/-- `close()` of a writer, at the level of the file on disk -/
+def closeDisk (F : Flags) : Disk → Disk
+  | .file c =>
+    match c.writing with
+    | some b => if F.closeReset true (h5AttrRead b) then .file { c with writing := some F.closeValue }
+                else .file c
+    | none => .file c
+  | d => d
+
+/-- the handlers that run while an exception unwinds -/
+def unwindDisk (F : Flags) (removeable : Bool) : Disk → List UnwindStep → Disk
+  | d, [] => d
+  | d, .close :: r => unwindDisk F removeable (closeDisk F d) r
+  | d, .remove :: r =>
+    let d' := closeDisk F d
+    unwindDisk F removeable (if (removeRun F.removeSteps removeable).1 then .missing else d') r
+
+/-- The file left behind when an exception (error or KeyboardInterrupt) is raised after the
+    writer's `k`-th operation, everything issued so far being persisted (h5py closes open
+    files when the interpreter exits): the first `k` operations, then — if construction
+    (`nCreate` operations) was complete — whatever the handlers on the way out do. -/
+def excState (F : Flags) (removeable : Bool) (unwind : List UnwindStep) (d0 : Disk)
+    (trace : List Op) (nCreate k : Nat) : Disk :=
+  let d := replay d0 (trace.take k)
+  if nCreate ≤ k then unwindDisk F removeable d unwind else d
 
 end OQuPyVerif.PTFile
